@@ -99,6 +99,9 @@ func isDecimal(t types.Type) bool { return isNamed(t, "github.com/shopspring/dec
 
 // opaque named struct types handled as abstract refs/values
 func isOpaqueStruct(t types.Type) bool {
+	if isTime(t) || isDecimal(t) {
+		return false
+	}
 	n, ok := types.Unalias(t).(*types.Named)
 	if !ok || n.Obj().Pkg() == nil {
 		return false
@@ -260,7 +263,7 @@ func (d *Decls) FieldHeap(st types.Type, idx int) (name string, sort string) {
 // CellHeap names the heap array of first-class cells of a leaf type (slice elements, boxed variables).
 func (d *Decls) CellHeap(t types.Type) (name string, sort string) {
 	s := d.SortOf(t)
-	return "C_" + sanitize(s), "(Array Ref " + s + ")"
+	return "C_" + sanitize(shortType(types.Unalias(t))), "(Array Ref " + s + ")"
 }
 
 func (d *Decls) MapHeaps(m *types.Map) (dom, val, ks, vs string) {
